@@ -2,6 +2,9 @@ import Ntrip.Model.Bits
 import Ntrip.Model.SegmentT
 import Ntrip.Model.Classify
 import Ntrip.Model.Msm
+import Ntrip.Model.Base
+import Ntrip.Model.Analyse
+import Ntrip.Spec.MsmCodec
 /-! Operations of the line protocol.  Every branch that rejects input answers `bad-op`
     (never a default value). -/
 namespace Driver
@@ -87,7 +90,49 @@ def showMsmRes : Res MsmMsg → String
   | .err e => "err " ++ e.toString
   | .panic => "panic"
 
+def showBase : Res (List Int) → String
+  | .ok vs => "ok " ++ joinWith " " (vs.map toString)
+  | .err e => "err " ++ e.toString
+  | .panic => "panic"
+
+def showAnalyse : Res Readable → String
+  | .ok (.msm .msm4 _) => "ok msm4"
+  | .ok (.msm .msm7 _) => "ok msm7"
+  | .ok (.base .t1005 _) => "ok 1005"
+  | .ok (.base .t1006 _) => "ok 1006"
+  | .ok .text => "text"
+  | .err e => "err " ++ e.toString
+  | .panic => "panic"
+
+def parseInts (s : String) : Option (List Int) :=
+  if s == "-" then some [] else (s.splitOn ",").mapM (fun t => t.toInt?)
+
+def parseCols (s : String) : Option (List (List Int)) :=
+  if s == "-" then some [] else (s.splitOn ";").mapM parseInts
+
 def handle : List String → String
+  | ["msmenc", k, pad, hv, cm, sat, sig, _go] =>
+    match pad.toNat?, parseInts hv, cm.toNat?, parseCols sat, parseCols sig with
+    | some pad, some hvals, some cellMask, some satCols, some sigCols =>
+      let kind := if k == "7" then MsmKind.msm7 else MsmKind.msm4
+      let m : MsmSpec := { hvals := hvals, cellMask := cellMask, satCols := satCols, sigCols := sigCols }
+      toHex (packBits (msmBits kind m) ++ List.replicate pad 0)
+    | _, _, _, _, _ => "bad-op"
+  | ["analyse", t, h] =>
+    match t.toInt?, parseHex h with
+    | some T, some b =>
+      match (getMessage crc24q (newState T) b).1 with
+      | .empty => "empty"
+      | .msg m => showGMT (.msg m) ++ " analyse=" ++ showAnalyse (analyse m.typ m.raw)
+    | _, _ => "bad-op"
+  | "base5" :: h :: _ =>
+    match parseHex h with
+    | some b => showBase (decodeBase .t1005 b)
+    | none => "bad-op"
+  | "base6" :: h :: _ =>
+    match parseHex h with
+    | some b => showBase (decodeBase .t1006 b)
+    | none => "bad-op"
   | "msm4" :: h :: _ =>
     match parseHex h with
     | some b => showMsmRes (decodeMsm .msm4 b)
